@@ -159,7 +159,7 @@ Proof.
   split; [|apply negb_true_iff; exact Hdd].
   unfold classify. destruct (String.eqb t ""); [auto|]. rewrite Hd. cbn [negb].
   destruct (find_opt rs t); [discriminate|].
-  destruct (Nat.eqb (String.length t) 1); [auto|].
+  destruct (Nat.eqb (String.length t) 1); [auto|]. cbn [orb] in Htup.
   assert (Hbe : match split_first "="%char t with
                 | Some (o, e) => match find_opt rs o with Some r0 => Some (COpt r0 o (Some e)) | None => None end
                 | None => None
